@@ -57,7 +57,7 @@ static Json::Value gen() {
   for (int t = 0; t < nticks; t++) {
     Json::Value tick(Json::objectValue);
     int k = W({50, 40, 10});
-    tick["adv_ms"] = (k == 0 ? R(1, 5) : k == 1 ? R(0, 12) : R(12, 40)) * 1000;
+    tick["adv_ms"] = (k == 0 ? R(1, 5) : k == 1 ? R(0, 12) : R(12, 40)) * 1000 + subsecMs();
     Json::Value ops(Json::arrayValue);
     if (t > 0) {
       for (auto& c : view.cgs) {
